@@ -38,6 +38,7 @@ pub fn truth(fam: &Family) -> (Vec<f64>, Vec<f64>) {
         Family::Exp3 => (vec![0.5, 1.75, 6.0], vec![1.0, 2.0, 1.5]),
         Family::GaussDecayOff => (vec![2.0, 0.625, 1.5], vec![1.25, 2.0, 0.5]),
         Family::OLeary => (vec![1.0, 2.5, 4.0], vec![6.0, 1.0]),
+        Family::ExpN(n) => ((0..*n).map(|j| 0.5 * 2.5f64.powi(j as i32)).collect(), (0..*n).map(|j| 1.0 + 0.5 * j as f64).collect()),
         Family::PolyMat(s) => (vec![0.5; s.p], (0..s.m).map(|j| 1.0 + j as f64).collect()),
         Family::GenProd { m, p, .. } => (vec![0.75, 0.625, 1.25][..*p].to_vec(), vec![1.0, -0.75, 0.5][..*m].to_vec()),
     }
@@ -45,7 +46,7 @@ pub fn truth(fam: &Family) -> (Vec<f64>, Vec<f64>) {
 
 pub fn xgrid(fam: &Family, n: usize) -> Vec<f64> {
     match fam {
-        Family::Exp1Off | Family::Exp2Off | Family::Exp3 => linspace(0.0, 6.0, n),
+        Family::Exp1Off | Family::Exp2Off | Family::Exp3 | Family::ExpN(_) => linspace(0.0, 6.0, n),
         Family::GaussDecayOff => linspace(0.0, 5.0, n),
         Family::OLeary => linspace(0.0, 1.5, n),
         Family::PolyMat(s) => (0..s.n).map(|i| i as f64).collect(),
